@@ -1154,7 +1154,11 @@ class GenericPlainRegistry(Generic[QuantityT, UnitT], metaclass=RegistryMeta):
                             self._suffixes[suffix],
                         )
                 else:
-                    for real_name in sorted(self._units_casei.get(name.lower(), ())):
+                    # exact-case spelling first, then a fixed order
+                    for real_name in sorted(
+                        self._units_casei.get(name.lower(), ()),
+                        key=lambda n: (n != name, n),
+                    ):
                         yield (
                             self._prefixes[prefix].name,
                             self._units[real_name].name,
